@@ -487,6 +487,61 @@ fn enc_into(
     }
 }
 
+// Verification hooks (compiled only with --cfg raptorq_verif): read-only access to the intermediate symbols and
+// construction with an explicit matrix back-end threshold, directly or through a freshly generated plan.
+#[cfg(raptorq_verif)]
+impl SourceBlockEncoder {
+    pub fn verif_intermediate_symbols(&self) -> Vec<Vec<u8>> {
+        (0..self.intermediate_symbols.len())
+            .map(|i| self.intermediate_symbols.get(i).to_vec())
+            .collect()
+    }
+
+    pub fn verif_new_with(
+        source_block_id: u8,
+        config: &ObjectTransmissionInformation,
+        data: &[u8],
+        sparse_threshold: u32,
+        via_plan: bool,
+    ) -> Option<SourceBlockEncoder> {
+        let source_symbols = SourceBlockEncoder::create_symbols(config, data);
+        let (direct, ops) = gen_intermediate_symbols(
+            &source_symbols,
+            config.symbol_size() as usize,
+            sparse_threshold,
+        );
+        let intermediate_symbols = if via_plan {
+            // plan generated on dummy one-byte symbols, as SourceBlockEncodingPlan::generate does
+            let dummy = vec![Symbol::new(vec![0]); source_symbols.len()];
+            let (_, plan_ops) = gen_intermediate_symbols(&dummy, 1, sparse_threshold);
+            drop(ops);
+            gen_intermediate_symbols_with_plan(
+                &source_symbols,
+                config.symbol_size() as usize,
+                &plan_ops?,
+            )
+        } else {
+            direct?
+        };
+        Some(SourceBlockEncoder {
+            source_block_id,
+            source_symbols,
+            intermediate_symbols,
+        })
+    }
+}
+
+#[cfg(raptorq_verif)]
+impl SourceBlockEncodingPlan {
+    pub fn verif_source_symbol_count(&self) -> u16 {
+        self.source_symbol_count
+    }
+
+    pub fn verif_operation_count(&self) -> usize {
+        self.operations.len()
+    }
+}
+
 #[cfg(feature = "std")]
 #[cfg(test)]
 mod tests {
